@@ -712,10 +712,12 @@ func (d *decoder) parseDataFields(dm *defmsg, knownMsg bool, msgv reflect.Value)
 			d.parseTimeStamp(dm, fieldv, pfield)
 		case types.Lat:
 			i32 := dm.arch.Uint32(d.tmp[:types.BaseSint32.Size()])
+			i32 = signExtendNarrow(i32, dfield.btype)
 			lat := NewLatitude(int32(i32))
 			fieldv.Set(reflect.ValueOf(lat))
 		case types.Lng:
 			i32 := dm.arch.Uint32(d.tmp[:types.BaseSint32.Size()])
+			i32 = signExtendNarrow(i32, dfield.btype)
 			lng := NewLongitude(int32(i32))
 			fieldv.Set(reflect.ValueOf(lng))
 		default:
@@ -735,6 +737,18 @@ func (d *decoder) parseDataFields(dm *defmsg, knownMsg bool, msgv reflect.Value)
 	}
 
 	return msgv, nil
+}
+
+// signExtendNarrow sign-extends a coordinate that the definition message
+// carries as sint8 or sint16 (the value was zero-padded to four bytes).
+func signExtendNarrow(v uint32, btype types.Base) uint32 {
+	switch btype {
+	case types.BaseSint8:
+		return uint32(int32(int8(v)))
+	case types.BaseSint16:
+		return uint32(int32(int16(v)))
+	}
+	return v
 }
 
 func (d *decoder) parseFitField(dm *defmsg, dfield fieldDef, fieldv reflect.Value) error {
